@@ -218,6 +218,13 @@ func TestHostileChips(t *testing.T) {
 		// the hostile chip
 		ho := o
 		sc.apply(&ho)
+		if ho.WithholdDG14 || ho.WithholdDG15 {
+			// the chip may refuse the withheld file with "file not found" or with some other status
+			// (the read then ends with an error and a partial result, whose summary is judged too)
+			ho.WithholdSW = rapid.SampledFrom([]uint16{0, 0, 0x6A82, 0x6F00, 0x6982, 0x6A80, 0x6283, 0x6400}).Draw(rt, "withholdSW")
+			rep["withholdSW"] = fmt.Sprintf("%04X", ho.WithholdSW)
+			evid.Count(fmt.Sprintf("withheld-status-%04X", ho.WithholdSW), 1)
+		}
 		if ho.DowngradeCA {
 			ho.DowngradePos = rapid.IntRange(0, 2).Draw(rt, "downgradePos")
 			ho.DowngradeKind = rapid.IntRange(0, 2).Draw(rt, "downgradeKind")
